@@ -1,6 +1,7 @@
 import ColoVerif.Proofs.SpreadCoord
 import ColoVerif.Proofs.SpreadGrid
 import ColoVerif.Proofs.SpreadExport
+import ColoVerif.Proofs.SpreadFree
 /-
 C06 — global placement stays inside the placement area and exports the blend.
 
@@ -59,6 +60,47 @@ example : ∀ l ∈ (mkGrid 5 (gridRegions 3 [⟨0, 20, 0, 4⟩] [⟨0, 20, 0, 4
   (bins_inside_area 3 5 [⟨0, 20, 0, 4⟩] [⟨0, 20, 0, 4⟩] ⟨0, 20, 0, 4⟩ (by decide) (by simp) (by decide)
     (by decide) (by unfold Rect.IsInt intMax intMin; decide)
     (by intro r hr; simp at hr; subst hr; unfold Rect.Within; decide)).2.1
+
+/-- Self-contained form over the shared circuit model: for a circuit with at least one row whose
+rows are well-formed rectangles with C++ `int` coordinates, every bin limit of the grid built by
+`DensityGrid::fromIspdCircuit` from `computeRows()` (any non-negative margin, any bin size)
+lies inside the bounding box of the circuit's rows. -/
+theorem bins_inside_rows_bbox (c : Circuit) (margin binSize : Int) (hm : 0 ≤ margin) (hne : c.rows ≠ [])
+    (hwf : ∀ r ∈ c.rows, Rect.Within ⟨intMin, intMax, intMin, intMax⟩ r.rect) :
+    (∀ l ∈ (mkGrid binSize (gridRegions margin (c.computeRows.map (·.rect)) (c.rows.map (·.rect)))).limX,
+      (computePlacementArea (c.rows.map (·.rect))).minX ≤ l ∧ l ≤ (computePlacementArea (c.rows.map (·.rect))).maxX) ∧
+    (∀ l ∈ (mkGrid binSize (gridRegions margin (c.computeRows.map (·.rect)) (c.rows.map (·.rect)))).limY,
+      (computePlacementArea (c.rows.map (·.rect))).minY ≤ l ∧ l ≤ (computePlacementArea (c.rows.map (·.rect))).maxY) := by
+  have hne' : c.rows.map (·.rect) ≠ [] := by simpa using hne
+  have hwf' : ∀ r ∈ c.rows.map (·.rect), Rect.Within ⟨intMin, intMax, intMin, intMax⟩ r := by
+    intro r hr
+    obtain ⟨row, hrow, rfl⟩ := List.mem_map.mp hr
+    exact hwf row hrow
+  have hrows := rows_within_bbox _ hne' hwf'
+  have hbox0 := area_within _ ⟨intMin, intMax, intMin, intMax⟩ hne'
+    (by unfold Rect.IsInt intMin intMax; decide) hwf'
+  have hfree : ∀ r ∈ c.computeRows.map (·.rect), Rect.Within (computePlacementArea (c.rows.map (·.rect))) r := by
+    intro r hr
+    obtain ⟨fr, hfr, rfl⟩ := List.mem_map.mp hr
+    exact computeRows_within c [] _ (fun row hrow => hrows row.rect (List.mem_map.mpr ⟨row, hrow, rfl⟩)) fr hfr
+  have hint : Rect.IsInt (computePlacementArea (c.rows.map (·.rect))) := by
+    unfold Rect.Within at hbox0
+    unfold Rect.IsInt
+    simp only at hbox0
+    omega
+  have hwfb : (computePlacementArea (c.rows.map (·.rect))).minX ≤ (computePlacementArea (c.rows.map (·.rect))).maxX ∧
+      (computePlacementArea (c.rows.map (·.rect))).minY ≤ (computePlacementArea (c.rows.map (·.rect))).maxY := by
+    unfold Rect.Within at hbox0
+    omega
+  exact (bins_inside_area margin binSize _ _ _ hm hne' rfl hwfb hint hfree).2
+
+/-- non-vacuity of `bins_inside_rows_bbox`: a circuit with one row and a fixed obstruction -/
+example :
+    let c : Circuit := ⟨[⟨4, 4, 8, 0, .N, true, true, .ANY⟩], [], [⟨⟨0, 20, 0, 4⟩, .N⟩]⟩
+    ∀ l ∈ (mkGrid 5 (gridRegions 1 (c.computeRows.map (·.rect)) (c.rows.map (·.rect)))).limX,
+      (computePlacementArea (c.rows.map (·.rect))).minX ≤ l ∧ l ≤ (computePlacementArea (c.rows.map (·.rect))).maxX :=
+  (bins_inside_rows_bbox ⟨[⟨4, 4, 8, 0, .N, true, true, .ANY⟩], [], [⟨⟨0, 20, 0, 4⟩, .N⟩]⟩ 1 5 (by decide) (by simp)
+    (by intro r hr; simp at hr; subst hr; unfold Rect.Within intMin intMax; decide)).1
 
 /-- `spreadCoordX/Y`: if every bin of the loop has `lo < hi`, no cell is allocated to two bins
 (nor twice to one) and cell indices are in range — the invariant `HierarchicalDensityPlacement::
